@@ -295,8 +295,20 @@ def main_check(pid, hname, tier, seed, extra_evidence=None, pre_results=None):
         # float cross-validation disagreements that the symbolic run did not flag = harness / encoding problem
         cand_ids = {c['id'] for c, _ in cands}
         for c, cand in xval_bad:
-            if c['id'] not in cand_ids:
-                harness_errors.append({'case': c['id'], 'why': 'float cross-validation failed where symbolic run passed', 'cand': cand})
+            if c['id'] in cand_ids:
+                continue
+            if cand.get('kind') in ('structure', 'exception'):
+                # a concrete (value-independent, tolerance-free) obligation failed on the REAL float backend in the cross-run of the
+                # same harness case: e.g. dtype tags, which the symbolic backend cannot observe.  It reproduces by construction.
+                sig = finding_signature(h, c, cand)
+                cand = dict(cand, found_by='float-backend cross-run of the harness (concrete obligation)', float_seed=seed + [x['id'] for x in fcases].index(c['id']))
+                path = write_replay(pid, hname, c, cand)
+                if any(e.get('signature') == sig for e in known):
+                    known_hits.append((sig, c, cand))
+                else:
+                    violations.append((sig, c, cand, path))
+            else:
+                harness_errors.append({'case': c['id'], 'why': 'float cross-validation failed (numeric obligation) where symbolic run passed', 'cand': cand})
     finally:
         pools.close()
 
